@@ -315,29 +315,18 @@ func (c *MJAccordionElementComponent) Render(w io.StringWriter) error {
 		return err
 	}
 
-	// Find title and content components
-	var titleComponent *MJAccordionTitleComponent
-	var textComponent *MJAccordionTextComponent
-
+	// Render the element's children in document order, as MJML does: every title and every text
+	// (not only the last of each kind)
 	for _, child := range c.Children {
-		if title, ok := child.(*MJAccordionTitleComponent); ok {
-			titleComponent = title
-		} else if text, ok := child.(*MJAccordionTextComponent); ok {
-			textComponent = text
-		}
-	}
-
-	// Render title section
-	if titleComponent != nil {
-		if err := c.renderTitle(w, titleComponent, iconAlign, iconHeight, iconWidth, iconWrappedUrl, iconUnwrappedUrl, iconWrappedAlt, iconUnwrappedAlt); err != nil {
-			return err
-		}
-	}
-
-	// Render content section
-	if textComponent != nil {
-		if err := c.renderContent(w, textComponent); err != nil {
-			return err
+		switch ch := child.(type) {
+		case *MJAccordionTitleComponent:
+			if err := c.renderTitle(w, ch, iconAlign, iconHeight, iconWidth, iconWrappedUrl, iconUnwrappedUrl, iconWrappedAlt, iconUnwrappedAlt); err != nil {
+				return err
+			}
+		case *MJAccordionTextComponent:
+			if err := c.renderContent(w, ch); err != nil {
+				return err
+			}
 		}
 	}
 
